@@ -1575,6 +1575,19 @@ static void compile_expr(CG *cg, ASTNode *node) {
                 default:
                     cg_error(cg, node->line, "unsupported unary operator %d", op);
             }
+        } else if (argc == 2 && (op == TOKEN_AND || op == TOKEN_OR)) {
+            /* and / or short-circuit, as in the interpreter and in the C the
+             * transpiler emits: the right operand is evaluated only if the left
+             * one does not decide the result. */
+            compile_expr(cg, args[0]);
+            uint32_t skip_instr = cg->code_size;
+            uint32_t skip_off = emit_op(cg, op == TOKEN_AND ? OP_JMP_FALSE : OP_JMP_TRUE, (int32_t)0);
+            compile_expr(cg, args[1]);
+            uint32_t end_instr = cg->code_size;
+            uint32_t end_off = emit_op(cg, OP_JMP, (int32_t)0);
+            patch_jump(cg, skip_off + 1, skip_instr, cg->code_size);
+            emit_op(cg, OP_PUSH_BOOL, op == TOKEN_AND ? 0 : 1);
+            patch_jump(cg, end_off + 1, end_instr, cg->code_size);
         } else if (argc == 2) {
             /* Binary operators */
             compile_expr(cg, args[0]);
